@@ -133,12 +133,20 @@ def main(tier, seed, only=None):
         if st["error_sample"] and not p["error_sample"]:
             p["error_sample"] = st["error_sample"]
     by_name = {d.drv_name(): d for d in sel}
+    low_verdict = {}
     for name, p in per_driver.items():
         d = by_name[name]
         ok_runs = p["exec"] - p["errors"]
+        p["verdict_fraction"] = round(ok_runs / p["exec"], 4) if p["exec"] else 0.0
+        if p["verdict_fraction"] < 0.5:
+            # most scenarios of this driver were aborted by an exception: its classes are NOT credited to it
+            low_verdict[name] = {"verdict_fraction": p["verdict_fraction"], "covers": list(d.covers),
+                                 "error_sample": p["error_sample"]}
         for c in d.covers:
             if ok_runs == 0:
                 erroring[c] = p["error_sample"]
+            elif p["verdict_fraction"] < 0.5:
+                continue
             elif c not in p["instances"]:
                 declared_missing.append(c)
             else:
@@ -184,6 +192,7 @@ def main(tier, seed, only=None):
                                      "deliveries_to_library_entities": per_driver[n]["lib_deliveries"],
                                      "requests_completed": f"{per_driver[n]['completed']}/{per_driver[n]['requests']}",
                                      "error_scenarios": per_driver[n]["errors"],
+                                     "scenarios_with_verdict_fraction": per_driver[n]["verdict_fraction"],
                                      "error_sample": per_driver[n]["error_sample"],
                                      "fingerprints": sorted(per_driver[n]["viol"])} for n in names}
 
@@ -208,6 +217,9 @@ def main(tier, seed, only=None):
         "auxiliary_classes_exercised": extra_cov,
         "declared_but_not_instantiated": sorted(set(declared_missing)),
         "drivers_failing_in_every_scenario": erroring,
+        "drivers_below_50pct_verdicts": low_verdict,
+        "classes_only_exercised_by_low_verdict_drivers": sorted(
+            {c for v in low_verdict.values() for c in v["covers"]} - set(covered)),
         "drivers_emitting_no_event": sorted(inert),
         "partial_run": bool(only),
     })
@@ -230,6 +242,9 @@ def main(tier, seed, only=None):
     for n, p in sorted(per_driver.items()):
         if p["errors"]:
             print(f"[C07] driver {n}: {p['errors']}/{p['exec']} scenarios raised; sample: {p['error_sample']}")
+    for n, v in sorted(low_verdict.items()):
+        print(f"[C07] COVERAGE GAP: driver {n} reached a verdict in only {v['verdict_fraction']:.0%} of its scenarios "
+              f"(covers {v['covers']}; not credited)")
     if declared_missing:
         print(f"[C07] declared but not instantiated: {sorted(set(declared_missing))}")
     return run.finish()
